@@ -328,3 +328,12 @@ def check(ctx):
     # shared oracle: operators return new values, operands bound to variables are never updated in place
     import alias_common
     alias_common.run(ctx, prefix="alias")
+
+
+# ---- refinement lemmas of the unified pipeline model for this property (Props/PipelineArr.lean): the scope of
+# comprehension variables (save / set in place / restore = the local copy the model runs on), and the session
+# fragment's expressions inside comprehensions
+import pipeline as _pl
+LEAN_MODULES = LEAN_MODULES + [m for m in _pl.LEAN_MODULES3 if m not in LEAN_MODULES]
+THEOREMS = THEOREMS + [t for t in _pl.THEOREMS3.get(ID, []) if t not in THEOREMS]
+GEN = GEN + [g for g in _pl.GEN if g not in GEN]
